@@ -62,6 +62,13 @@ def gen(ctx):
         for k in (0, 1, 100, 8192, 20000):
             yield line(cfg_str(ver=ver), [connect(), get("p", 1, payload="g3.%d" % k, end="t"), "disc:0"])
             yield line(cfg_str(ver=ver), [connect(), lst("p", 1, end="t"), "disc:0"])
+        # the data peer closes its connection (FIN) instead of answering the TLS handshake: a failed handshake for a download,
+        # an upload and a listing alike, in all four methods
+        for mode in "pa":
+            for rfc in (0, 1):
+                c = cfg_str(mode=mode, rfc=rfc, ver=ver)
+                yield line(c, [connect(), lst(mode, rfc, end="ck"), "disc:0"])
+                yield line(c, [connect(), get(mode, rfc, end="ck"), "disc:0"])
         yield line(cfg_str(ver=ver), [connect(), get("p", 1, main=550), noop])
     ctx["scopes"].append("TLS 1.2/1.3 x resumption on/off x four methods x both types (download, upload, listing); refusal of AUTH TLS with 7 codes; garbage instead of ServerHello; unknown CA with verify_peer / verify_none; PBSZ/PROT refused; a data peer with a certificate of an unknown CA (resumption on / off x four methods x download, listing, upload); login refused; truncation after 0,1,100,8192,20000 bytes")
     n = 20 if tier == "quick" else 1500
